@@ -284,7 +284,7 @@ namespace hs
             sut = r.chance(1, 5) ? pick(r, ARENAS) : any_user();
         else if (profile == "C18")
         {
-            sut = any_user();
+            sut = r.chance(1, 8) ? pick(r, ARENAS) : any_user();
             if (sut.compare(0, 3, "ll.") == 0)
                 sut = pick(r, POOLS);
         }
